@@ -168,7 +168,7 @@ def cases(tier, rng):
             L.append("az %d %d %s" % (pct, req, hx(letters(n + 1))))
             L.append("azcfg %d %d %s" % (pct, req, hx(letters(max(n, 0)))))
     # out-of-range requests
-    for req in (-5, 33, -100, 1000, -(1 << 62), (1 << 62), -(1 << 63) + 1, (1 << 63) - 1):
+    for req in (-5, 33, -100, 1000, -(1 << 62), (1 << 62), -(1 << 63) + 1, -(1 << 63), (1 << 63) - 1):
         L.append("az 33 %d 4142" % req)
     # automatic sizing at the boundary of each configuration (C13: also request every smaller size)
     order = [(True, l) for l in range(1, 5)] + [(False, l) for l in range(4, 33)]
@@ -273,13 +273,15 @@ def oracle_verdict(line, impl_out, oracle_out):
             return "the specification reader rejects the symbol: " + oracle_out
         if o[5] != t[3]:
             return "the symbol decodes to a different payload"
-        if f[5] != t[3]:
+        if f[4] != t[3]:
             return "Content() differs from the payload"
         req = int(t[2])
         if req != 0 and (o[1] != ("1" if req < 0 else "0") or int(o[2]) != abs(req)):
             return "explicit layer request not honoured"
-        size = int(f[4].split("x")[1])
-        if f[1] != "Aztec" or f[2] != "2" or f[3] != "0,0-%dx%d" % (size, size) or "?" in f[-1]:
+        rows = f[-1].split("/")
+        size = len(rows)
+        if f[1] != "Aztec" or f[2] != "2" or f[3] != "0,0-%dx%d" % (size, size) or f[5] != "-" \
+                or any(len(r) != size or set(r) - {"0", "1"} for r in rows):
             return "rendering contract (kind, dimensions, bounds, colours)"
         return None
     if t[0] == "azhl":
@@ -310,7 +312,7 @@ def distribution(lines, impl_outs):
             continue
         if t[0] == "az":
             if o.startswith("OK "):
-                inc("az ok size " + o.split(" ")[4].split("x")[1])
+                inc("az ok size " + o.split(" ")[3].split("x")[1])
                 inc("az ok pct " + t[1])
                 inc("az ok request " + ("auto" if t[2] == "0" else "compact" if t[2].startswith("-") else "full"))
             else:
